@@ -102,8 +102,16 @@ def verify_output(seq, lines):
     return None
 
 
-def check_seq(seq, gsb, JSS):
-    blocks = [JSS(name=n, script=script_of(n, v), depends_on=list(d)) for n, v, d in seq]
+def check_seq(seq, gsb, JSS, shape="fresh"):
+    # the containers the caller passes: a list of its own per block ("fresh"), tuples (metadata accepts them), or ONE list object
+    # per distinct dependency set shared by every block that has it (after_setup = ["setup"] used for two blocks)
+    if shape == "fresh":
+        blocks = [JSS(name=n, script=script_of(n, v), depends_on=list(d)) for n, v, d in seq]
+    elif shape == "tuple":
+        blocks = [JSS(name=n, script=tuple(script_of(n, v)) if False else script_of(n, v), depends_on=tuple(d)) for n, v, d in seq]
+    else:
+        pool = {}
+        blocks = [JSS(name=n, script=script_of(n, v), depends_on=pool.setdefault(tuple(d), list(d))) for n, v, d in seq]
     due = error_due(seq)
     try:
         lines = gsb(blocks)
@@ -131,6 +139,14 @@ def worker(args):
 
     def rec(seq):
         r = check_seq(seq, gsb, JSS)
+        used_shape = "fresh"
+        for shape in ("tuple", "shared"):
+            if r is None:
+                r = check_seq(seq, gsb, JSS, shape)
+                if r is not None:
+                    r = (r[0], f"[depends_on given as {shape}] " + r[1])
+                    used_shape = shape
+                stats["shape_runs"] += 1
         stats["sequences"] += 1
         due = error_due(seq)
         stats["error_cases" if due else "ok_cases"] += 1
@@ -139,7 +155,7 @@ def worker(args):
         if r is not None:
             stats["bad"] += 1
             if len(bad) < 50:
-                bad.append({"symptom": r[0], "detail": r[1][:300], "sequence": [list(b) for b in seq], "due": due})
+                bad.append({"symptom": r[0], "detail": r[1][:300], "sequence": [list(b) for b in seq], "due": due, "depends_on_shape": used_shape})
         if len(seq) < maxlen:
             for c in choices_rest:
                 # name symmetry is NOT used: every sequence is enumerated
